@@ -124,7 +124,8 @@ def _concat_parts(v):
 def _alias_rule(ctx, pkg):
     fn = pkg.method("Species", "alias")
     ctx.saw(SP, "Species.alias")
-    fl = Flow(fn, SP, resolver=lambda name: pkg.resolve("Species", name)[1])
+    # the alias may be assembled by helper methods (also ones that loop: the element-case replacement): what they return is followed
+    fl = Flow(fn, SP, resolver=lambda name: pkg.resolve("Species", name)[1], inline_loops=True)
     st = [f for f in fl.facts if f.kind == "attrstore" and f.target == "_alias"]
     out = {"ok": False, "sanitises": False, "line": fn.lineno}
     if not st:
@@ -282,7 +283,7 @@ def _r2(ctx, pkg):
     # what the two properties compute may sit in helper methods they call
     bsrc = "\n".join(ast.unparse(f) for f in method_closure(pkg, "Species", bfn))
     asrc = "\n".join(ast.unparse(f) for f in method_closure(pkg, "Species", afn))
-    disj, _ = eq_disjuncts(eqf)
+    disj, _ = eq_disjuncts(eqf, resolve=lambda name: pkg.resolve("Species", name)[1])
     ice = [d for d in disj if ("both", "is_surface") in d]
     compared = {l[1] for d in ice for l in d if l[0] == "eq"}
     stripped = {"surface_group": "_surface_group" in bsrc or "surface_group" in bsrc, "charge": "charge" in bsrc}
@@ -447,7 +448,9 @@ def _r4_defs(ctx, pkg):
     h = pkg.method("RenderCommand", "handle")
     ctx.saw(RENDER, "RenderCommand.handle")
     stored, counts = {}, []
-    for mname, mfn in rc.methods.items():
+    # ... or in a function of the command's module the table was moved to
+    scopes = list(rc.methods.values()) + [g for (f_, _), g in pkg.functions.items() if f_ == RENDER]
+    for mfn in scopes:
         mfl = Flow(mfn, RENDER)
         for f in mfl.facts:
             if f.kind != "store" or f.index is None:
@@ -485,7 +488,11 @@ def _r4_defs(ctx, pkg):
     for name, f, v in counts:
         attr = "elements" if "elements" in name else "species"
         v = simp(v)
-        ok = v[0] == "call" and v[1] == ("global", "len") and len(v[2]) == 1 and v[2][0][0] == "attr" and v[2][0][2] == attr
+        ok = False
+        if v[0] == "call" and v[1] == ("global", "len") and len(v[2]) == 1 and not v[3]:
+            # the length of the sequence itself, or of a list with one entry per member of it (unfiltered, one-to-one)
+            m = as_map(v[2][0])
+            ok = bool(m) and not m[3] and m[2][0] == "attr" and m[2][2] == attr and m[2][1][0] != "const"
         ctx.check(ok, "R5", f"render.py summary:{name}", (RENDER, f.line), f"{name} = len(net.{attr})", found=show(v)[:60])
     ctx.floor("R5", "render.py summary counts", len(counts), 2, (RENDER, h.lineno))
     ci = pkg.cls("NetworkConfiguration")
@@ -796,18 +803,67 @@ def regex_rewrites(pkg, cname, fn):
 
 # ------------------------------------------------------------------ R7 (shared with C15.R2)
 
+def class_constants(pkg, cname):
+    """{attribute: literal value} for the class-level names of a class (MRO) that are bound once, in the class body, to a literal
+    of immutable kind (str / number / bool / None / tuple of such) and that no statement of the package assigns, augments or
+    deletes as an attribute of anything (`x.NAME = ..`, `setattr(x, "NAME", ..)`)"""
+    cand = {}
+    for c in pkg.mro(cname):
+        ci = pkg.classes.get(c)
+        if ci is None:
+            continue
+        counts = {}
+        for st in ci.node.body:
+            for n in ast.walk(st) if not isinstance(st, (ast.FunctionDef, ast.AsyncFunctionDef, ast.ClassDef)) else []:
+                if isinstance(n, ast.Name) and isinstance(n.ctx, (ast.Store, ast.Del)):
+                    counts[n.id] = counts.get(n.id, 0) + 1
+        for name, node in ci.attrs.items():
+            if name in cand or counts.get(name) != 1:
+                continue
+            try:
+                val = ast.literal_eval(node)
+            except Exception:
+                continue
+
+            def immutable(x):
+                return x is None or isinstance(x, (str, int, float, bool, bytes)) or (isinstance(x, tuple) and all(immutable(y) for y in x))
+            if immutable(val):
+                cand[name] = val
+    if not cand:
+        return {}
+    for f in pkg.files:
+        for n in ast.walk(pkg.modules[f]):
+            if isinstance(n, ast.Attribute) and isinstance(n.ctx, (ast.Store, ast.Del)):
+                cand.pop(n.attr, None)
+            elif isinstance(n, ast.Call) and isinstance(n.func, ast.Name) and n.func.id in ("setattr", "delattr") and len(n.args) >= 2:
+                if isinstance(n.args[1], ast.Constant):
+                    cand.pop(n.args[1].value, None)
+                else:
+                    return {}            # a computed attribute name: anything may be re-bound
+    return cand
+
+
 def hash_contract(ctx, pkg, rule="R7"):
     eqf = pkg.method("Species", "__eq__")
     hf = pkg.method("Species", "__hash__")
     ctx.saw(SP, "Species.__hash__")
-    disj, _ = eq_disjuncts(eqf)
+    disj, _ = eq_disjuncts(eqf, resolve=lambda name: pkg.resolve("Species", name)[1])
     paths = hash_paths(hf, resolve=lambda name: pkg.method("Species", name))
+    # a class-level constant (bound once in the class body to a literal, assigned nowhere in the package) read through self is that
+    # literal, the same for every instance: not an attribute in which two species can differ
+    consts = class_constants(pkg, "Species")
+    paths = [(c, {a for a in reads if a not in consts}, txt) for c, reads, txt in paths]
     # attributes determined by name (derived from the name by parsing)
     for d in disj:
         lits = set(d)
         label = " & ".join(f"{l[0]}:{l[1]}" for l in sorted(d))
         if lits == {("both", "is_electron")}:
             el = [p for p in paths if p[0] == "self.is_electron"]
+            classlevel = {a for c in pkg.mro("Species") if c in pkg.classes for a in pkg.classes[c].attrs}
+            if len(el) == 1 and el[0][1] and el[0][1] <= classlevel:
+                # reads only names bound in the class body, but they are re-bound somewhere: whether they differ between instances is not decided
+                ctx.unrec(rule, f"hash vs eq[{label}]", (SP, hf.lineno), f"the hash of an electron reads class-level names that are not provably constant: {sorted(el[0][1])}")
+                continue
             ctx.check(len(el) == 1 and not el[0][1], rule, f"hash vs eq[{label}]", (SP, hf.lineno), "equal electrons hash to the same constant")
             continue
         forced = {l[1] for l in d if l[0] == "eq"} | {l[1] for l in d if l[0] == "both"}
